@@ -202,7 +202,25 @@ var _ utils.PriorityQueue
 //@ requires [C01 true-score] $arg0 == Distance(this.space, query, $arg1.(*hnswVertex).vector)
 //@ requires [C01 not-a-tombstone] $arg1.(*hnswVertex) != nil && ($arg1.(*hnswVertex) == entrypoint || $arg1.(*hnswVertex).deleted != 1)
 //@ end
-//@ assume [the queue predicate qP is read as: the item was made during this call] forall it *utils.PriorityQueueItem :: qP(it) == fresh(it)
+//@ assume [the queue predicate qP is read as: the item was made during this call] forall it *utils.PriorityQueueItem! :: qP(it) == fresh(it)
+// C01 (ascending order): the heap-order preconditions of every queue operation of the beam search are obligations here, so that
+// the order of the returned queue is proved, not assumed
+//@ at call utils.NewMinPriorityQueue
+//@ requires [C01 queue-intact] pushable($arg0)
+//@ end
+//@ at call utils.NewMaxPriorityQueue
+//@ requires [C01 queue-intact] pushable($arg0)
+//@ end
+//@ at call priorityQueue).Push
+//@ requires [C01 queue-intact] wfpq($arg0) && $arg1 != nil && !isnan($arg1.priority) && qP($arg1)
+//@ end
+//@ at call priorityQueue).Pop
+//@ requires [C01 queue-intact] wfpq($arg0)
+//@ end
+//@ at call priorityQueue).Peek
+//@ requires [C01 queue-intact] wfpq($arg0)
+//@ end
+//@ ensures [C01 beam-ordered] isMax(ret.(*utils.priorityQueue).queue) && ordH(ret.(*utils.priorityQueue).queue)
 //@ ensures [C01 beam-nonempty] ef >= 1 ==> len(qs(ret.(*utils.priorityQueue).queue)) >= 1
 //@ ensures [C01 beam-contents] istype(ret, *utils.priorityQueue) && ret.pay != 0 && hdyn(ret.(*utils.priorityQueue).queue) && forall k int :: 0 <= k && k < len(qs(ret.(*utils.priorityQueue).queue)) ==> beamItem(this, query, entrypoint, qs(ret.(*utils.priorityQueue).queue)[k]) && allocated(qs(ret.(*utils.priorityQueue).queue)[k]) && istype(qs(ret.(*utils.priorityQueue).queue)[k], utils.PriorityQueueItem)
 //@ requires [C12 ef-fits] 0 <= ef && ef <= memcap() && this.config != nil && 0 <= this.config.mMax0 && this.config.mMax0 <= 65536
@@ -210,28 +228,33 @@ var _ utils.PriorityQueue
 //@ loop 1
 //@ invariant [C01 made-here] forall it *utils.PriorityQueueItem :: fresh(it) ==> beamItem(this, query, entrypoint, it)
 //@ invariant [C01 result-queue] istype(resultVertices, *utils.priorityQueue) && resultVertices.pay != 0 && fresh(resultVertices.(*utils.priorityQueue)) && wfpq(resultVertices.(*utils.priorityQueue))
-//@ invariant [C01 beam-nonempty] ef >= 1 ==> len(qs(resultVertices.(*utils.priorityQueue).queue)) >= 1
+//@ invariant [C01 beam-nonempty] len(qs(resultVertices.(*utils.priorityQueue).queue)) >= 1
 //@ invariant [candidate-queue] istype(candidateVertices, *utils.priorityQueue) && candidateVertices.pay != 0 && wfpq(candidateVertices.(*utils.priorityQueue))
 //@ invariant [separate-queues] qs(candidateVertices.(*utils.priorityQueue).queue).ref != qs(resultVertices.(*utils.priorityQueue).queue).ref && allocated(qs(candidateVertices.(*utils.priorityQueue).queue)) && allocated(qs(resultVertices.(*utils.priorityQueue).queue)) && candidateVertices.(*utils.priorityQueue) != resultVertices.(*utils.priorityQueue) && isMin(candidateVertices.(*utils.priorityQueue).queue) && isMax(resultVertices.(*utils.priorityQueue).queue)
 //@ loop 2
 //@ invariant [C01 made-here] forall it *utils.PriorityQueueItem :: fresh(it) ==> beamItem(this, query, entrypoint, it)
 //@ invariant [C01 result-queue] istype(resultVertices, *utils.priorityQueue) && resultVertices.pay != 0 && fresh(resultVertices.(*utils.priorityQueue)) && wfpq(resultVertices.(*utils.priorityQueue))
-//@ invariant [C01 beam-nonempty] ef >= 1 ==> len(qs(resultVertices.(*utils.priorityQueue).queue)) >= 1
+//@ invariant [C01 beam-nonempty] len(qs(resultVertices.(*utils.priorityQueue).queue)) >= 1
 //@ invariant [candidate-queue] istype(candidateVertices, *utils.priorityQueue) && candidateVertices.pay != 0 && wfpq(candidateVertices.(*utils.priorityQueue))
 //@ invariant [separate-queues] qs(candidateVertices.(*utils.priorityQueue).queue).ref != qs(resultVertices.(*utils.priorityQueue).queue).ref && allocated(qs(candidateVertices.(*utils.priorityQueue).queue)) && allocated(qs(resultVertices.(*utils.priorityQueue).queue)) && candidateVertices.(*utils.priorityQueue) != resultVertices.(*utils.priorityQueue) && isMin(candidateVertices.(*utils.priorityQueue).queue) && isMax(resultVertices.(*utils.priorityQueue).queue)
 
 // simple selection: pops the worst until k are left - the same queue object, still well formed, nothing new in it
+// a queue whose heap order is known (well formed for the caller's reading of qP)
+//@ spec ordKnown(pq utils.PriorityQueue) bool = istype(pq, *utils.priorityQueue) && pq.pay != 0 && wfpq(pq.(*utils.priorityQueue))
 //@ func (*index.Hnsw).selectNeighbors
 //@ props C02 C01
 //@ safety UNCLAIMED
 //@ at call priorityQueue).Pop
 //@ requires [C01 items-known] old(istype(neighbors, *utils.priorityQueue) && allQ(neighbors.(*utils.priorityQueue).queue)) ==> allQ($arg0.queue)
+//@ requires [C01 queue-intact] old(ordKnown(neighbors)) ==> wfpq($arg0)
 //@ end
+//@ ensures [C01 order-kept] old(ordKnown(neighbors)) ==> wfpq(ret.(*utils.priorityQueue))
 //@ ensures [C01 keeps-one] old(istype(neighbors, *utils.priorityQueue) && neighbors.pay != 0 && hdyn(neighbors.(*utils.priorityQueue).queue) && len(qs(neighbors.(*utils.priorityQueue).queue)) >= 1) && k >= 1 ==> len(qs(ret.(*utils.priorityQueue).queue)) >= 1
 //@ ensures [C01 same-queue] ret == neighbors && (old(istype(neighbors, *utils.priorityQueue) && allQ(neighbors.(*utils.priorityQueue).queue)) ==> allQ(ret.(*utils.priorityQueue).queue))
 //@ modifies cells[utils.minPriorityQueue], cells[utils.maxPriorityQueue], mem[*utils.PriorityQueueItem]
 //@ loop 1
 //@ invariant [C01 items-known] old(istype(neighbors, *utils.priorityQueue) && allQ(neighbors.(*utils.priorityQueue).queue)) ==> allQ(neighbors.(*utils.priorityQueue).queue)
+//@ invariant [C01 order-kept] old(ordKnown(neighbors)) ==> wfpq(neighbors.(*utils.priorityQueue))
 //@ invariant [C01 keeps-one] old(istype(neighbors, *utils.priorityQueue) && neighbors.pay != 0 && hdyn(neighbors.(*utils.priorityQueue).queue) && len(qs(neighbors.(*utils.priorityQueue).queue)) >= 1) && k >= 1 ==> len(qs(neighbors.(*utils.priorityQueue).queue)) >= 1 && hdyn(neighbors.(*utils.priorityQueue).queue)
 
 // heuristic selection: if every item of the input queue is a beam item of the query, so is every item of the queue returned
@@ -410,11 +433,23 @@ var _ utils.PriorityQueue
 //@ ensures [C01 nonempty-answer] isnil(ret1) && this.config.searchAlgorithm == 0 && k >= 1 && old(this.entrypoint != nil && this.len >= 1 && this.len < 9223372036854775808) ==> len(ret0) >= 1
 //@ ensures [C01 results-are-beam-items] isnil(ret1) ==> forall j int :: 0 <= j && j < len(ret0) ==> exists v *hnswVertex! :: v != nil && v.deleted != 1 && ret0[j].Id == v.id && ret0[j].Metadata == v.metadata && ret0[j].Score == Distance(this.space, query, v.vector)
 //@ ensures [never-nil-nil] isnil(ret1) ==> !isnil(ret0)
+// ascending order (simple selection): the beam is a max-heap (searchLevel), selection pops from the same heap, and the result is
+// filled back to front with the successive maxima - each popped item is no better than what was popped before it
+//@ trust floatorder
+//@ ensures [C01 ascending] isnil(ret1) && this.config.searchAlgorithm == 0 ==> forall a int, b int :: 0 <= a && a < b && b < len(ret0) ==> !(ret0[b].Score < ret0[a].Score)
+//@ at call priorityQueue).Pop
+//@ requires [C01 queue-intact] this.config.searchAlgorithm == 0 ==> wfpq($arg0)
+//@ end
 //@ modifies cells[utils.minPriorityQueue], cells[utils.maxPriorityQueue], mem[*utils.PriorityQueueItem]
 //@ loop 1
 //@ invariant [C01 descent-live] entrypoint != nil && entrypoint.deleted != 1 && minDistance == Distance(this.space, query, entrypoint.vector)
 //@ loop 2
 //@ invariant [C01 beam-queue] istype(neighbors, *utils.priorityQueue) && neighbors.pay != 0 && allQ(neighbors.(*utils.priorityQueue).queue)
+//@ invariant [C01 heap] this.config.searchAlgorithm == 0 ==> wfpq(neighbors.(*utils.priorityQueue)) && isMax(neighbors.(*utils.priorityQueue).queue)
+//@ invariant [C01 enough-left] this.config.searchAlgorithm == 0 ==> len(qs(neighbors.(*utils.priorityQueue).queue)) >= i + 1
+//@ invariant [C01 ascending-so-far] this.config.searchAlgorithm == 0 ==> forall a int, b int :: i < a && a < b && b < len(result) ==> !(result[b].Score < result[a].Score)
+//@ invariant [C01 scores-are-numbers] this.config.searchAlgorithm == 0 ==> forall a int :: i < a && a < len(result) ==> !isnan(result[a].Score)
+//@ invariant [C01 rest-not-better] this.config.searchAlgorithm == 0 && i + 1 < len(result) ==> forall c int :: 0 <= c && c < len(qs(neighbors.(*utils.priorityQueue).queue)) ==> !(result[i + 1].Score < qs(neighbors.(*utils.priorityQueue).queue)[c].priority)
 //@ invariant [C01 last-slot] i + 1 < len(result) ==> lastV != nil && lastV.deleted != 1 && result[i + 1].Id == lastV.id && result[i + 1].Metadata == lastV.metadata && result[i + 1].Score == Distance(this.space, query, lastV.vector)
 //@ invariant [C01 filled] fresh(result) && 0 - 1 <= i && i < len(result) && forall j int :: i < j && j < len(result) ==> slotV(j) != nil && slotV(j).deleted != 1 && result[j].Id == slotV(j).id && result[j].Metadata == slotV(j).metadata && result[j].Score == Distance(this.space, query, slotV(j).vector)
 
